@@ -167,6 +167,10 @@ fn build(scn: &Scn) -> Built {
     // (a third of the runs start where the low byte of the Unix time wraps between files: byte-swapped,
     // the files would sort differently)
     let base = if scn.t0 % 3 == 0 { 0x6500_10FDu32 } else { 1_600_000_000u32 };
+    // (some fault-free runs of two or more files end where the 32-bit Unix time ends: the last file
+    // starts in second 2^32-1, the one before it ends in that same second)
+    let at_end_of_time = scn.file_fault.is_none() && scn.files.len() >= 2 && (scn.t0 >> 12) % 9 == 4;
+    let base = if at_end_of_time { u32::MAX - 2 * (scn.files.len() as u32 - 1) } else { base };
     let widths = [BankWidth::B16, BankWidth::B32, BankWidth::B32A];
     let start = clock;
     for (k, f) in scn.files.iter().enumerate() {
@@ -188,8 +192,8 @@ fn build(scn: &Scn) -> Built {
                 timestamp: {
                     let h = (e.seed ^ 0x51ED_270B).wrapping_mul(0x9E37_79B9_7F4A_7C15) >> 32;
                     match (scn.t0 >> 9) % 3 {
-                        0 => base + k as u32,
-                        1 => (base + k as u32 + 3).wrapping_sub((h % 7) as u32),
+                        0 => base.wrapping_add(k as u32),
+                        1 => base.wrapping_add(k as u32 + 3).wrapping_sub((h % 7) as u32),
                         _ => [0u32, u32::MAX, 1, h as u32, base, (h >> 3) as u32][(h % 6) as usize],
                     }
                 },
@@ -199,7 +203,8 @@ fn build(scn: &Scn) -> Built {
         }
         // consecutive files are contiguous: initial(k+1) - final(k) in {0, 1}
         let initial = base + 2 * k as u32;
-        let final_ts = if k + 1 < scn.files.len() { initial + 1 + (k as u32 % 2) } else { initial + 50 };
+        let final_ts = if k + 1 < scn.files.len() { initial + 1 + (k as u32 % 2) } else { initial.saturating_add(50) };
+        let final_ts = if at_end_of_time && k + 2 == scn.files.len() { u32::MAX } else { final_ts };
         files.push(MidasFile {
             big_endian: f.big_endian,
             run_number: scn.run_number,
@@ -448,6 +453,9 @@ impl Check for C19Check {
         stats.sim_time_s += built.sim_time_s;
         if built.wraps >= 2 {
             stats.probe("trg_counter_wrapped_ge_2");
+        }
+        if built.files.len() >= 2 && built.files[built.files.len() - 2].final_timestamp == u32::MAX {
+            stats.probe("file_boundary_in_the_last_second_of_32_bit_unix_time");
         }
         let fault_kind = scn.file_fault.as_ref().map(|f| f.kind()).unwrap_or("none");
         let mut bad_name_is_link_to: Option<(usize, String)> = None;
